@@ -119,7 +119,7 @@ type ShardOpts struct {
 	NCores  int    // number of cores available for pinning (default 16)
 	Env     []string
 	Timeout time.Duration // wall-clock watchdog per child (inconclusive when it fires without evidence)
-	PerCase time.Duration // added to Timeout for every case still to run in the child
+	PerCaseTime time.Duration // added to Timeout for every case still to run in the child
 	// Died is called when a child died while running a case. It decides whether that is a
 	// violation. If nil, every death is reported as a violation "process-died:<kind>".
 	Died func(caseID string, r *ChildResult)
@@ -180,7 +180,7 @@ func (c *Ctx) RunSharded(cases []string, o ShardOpts) {
 				r := c.RunChild(ChildOpts{
 					Bin: o.Bin, Name: o.Mode,
 					Args:  []string{"child", "cases", c.ID, c.Tier, fmt.Sprint(c.Seed), o.Mode},
-					Stdin: strings.Join(todo, "\n") + "\n", Env: o.Env, CPUList: cpulist, Timeout: o.Timeout + time.Duration(len(todo))*o.PerCase,
+					Stdin: strings.Join(todo, "\n") + "\n", Env: o.Env, CPUList: cpulist, Timeout: o.Timeout + time.Duration(len(todo))*o.PerCaseTime,
 				})
 				done := 0
 				for _, e := range r.Journal {
